@@ -1,16 +1,15 @@
 SPECIFICATION Spec
 CONSTANTS
   Reliable = FALSE
-  MaxSends = 3
-  MaxRecvs = 4
+  MaxSends = 6
+  MaxRecvs = 12
   Realms = {"r1", "r2"}
   AlgLists <- MCAlgLists
   DevK1 = TRUE
-  SimDepth = 0
-  Curated = FALSE
+  SimDepth = 14
+  Curated = TRUE
   DevK2 = TRUE
-VIEW ltview
 INVARIANT C08Holds
 INVARIANT ViewsAgree
-INVARIANT StateShape
+INVARIANT ExportSchedules
 CHECK_DEADLOCK FALSE
